@@ -10,13 +10,13 @@ adt(DepMap=dict(MNil={}, MCons=dict(k=Str, d="Dep", tl="DepMap")))        # inse
 adt(Rendered=dict(Rendered=dict(deps="DepList", html=Str)))
 
 
-@abstract
+@abstract(group="env")
 def tagifyOf(oid: Int) -> "TgRes":
     "the result of obj.tagify() for the user object with identity oid (pure, A5)"
     return BIND_T["tagifyOf"](oid)
 
 
-@abstract
+@abstract(group="env")
 def hasTagify(oid: Int) -> Bool:
     "whether the _repr_html_ object with identity oid also has a tagify() method"
     return BIND_T["hasTagify"](oid)
